@@ -17,7 +17,7 @@ from __future__ import annotations
 from typing import Any, Optional
 
 from .choices import Stream
-from .tasklib import ENUMS, TYPE_INFO, TYPE_QUALNAME, Value, ctx_view, digest_of, get_type, make_pad
+from .tasklib import ENUMS, NONE, TYPE_INFO, TYPE_QUALNAME, Value, ctx_view, digest_of, get_type, make_pad
 
 
 # ---------------------------------------------------------------- trees
@@ -147,6 +147,8 @@ class Ref:
 
     def value_of(self, i, context: dict, dep_digests, shape=None) -> Value:
         n = self.nodes[i]
+        if n['type'] == 'TZ':
+            return NONE
         q = TYPE_QUALNAME[n['type']].split('.')
         return Value(
             tname=f'{q[-2]}.{q[-1]}',
@@ -302,7 +304,7 @@ SCALARS = [
     ['s', 'int', -3], ['s', 'str', ''],
 ]
 
-DEFAULT_TYPES = [('TA', 4), ('TB', 3), ('TC', 3), ('TD', 2), ('TN', 2), ('TN1', 1), ('TN2', 2), ('TP', 2), ('TF', 1)]
+DEFAULT_TYPES = [('TA', 4), ('TB', 3), ('TC', 3), ('TD', 2), ('TN', 2), ('TN1', 1), ('TN2', 2), ('TP', 2), ('TF', 1), ('TZ', 1)]
 
 
 def wrap_refs(st: Stream, refs: list) -> list:
@@ -346,7 +348,7 @@ def gen_dag(st: Stream, *, max_nodes=8, types=None, max_depth=4, max_deps=3,
     depth: dict[int, int] = {}
     for i in range(n):
         tname = names[st.weighted(weights)]
-        cands = [j for j in range(i) if depth[j] < max_depth - 1]
+        cands = [j for j in range(i) if depth[j] < max_depth]
         refs = []
         if cands:
             k = st.weighted([3, 4, 3, 2][:max_deps + 1])
